@@ -1,82 +1,26 @@
+// Command peer is the engine for property C18 (spec/peer).
+//
+//	peer C18 --tier quick|thorough     run the check
+//	peer --drive <scenarios.json> <traces.ndjson>
+//	                                   driver mode (spawned by the check as a
+//	                                   race-instrumented build of this binary)
 package main
 
 import (
-	"fmt"
-	"net"
 	"os"
-	"runtime"
-	"strings"
-	"time"
 
-	"github.com/btcsuite/btcd/chaincfg/v2"
-	"github.com/btcsuite/btcd/peer"
-	"github.com/btcsuite/btcd/wire/v2"
+	"verif/harness/internal/peer"
+	"verif/harness/internal/vrun"
 )
 
-type wconn struct {
-	net.Conn
-	raddr net.Addr
-}
-
-func (c *wconn) RemoteAddr() net.Addr { return c.raddr }
-
-func peerGoroutines() string {
-	buf := make([]byte, 1<<20)
-	n := runtime.Stack(buf, true)
-	var out []string
-	for _, g := range strings.Split(string(buf[:n]), "\n\n") {
-		if strings.Contains(g, "btcd/peer.") {
-			out = append(out, g)
-		}
-	}
-	return strings.Join(out, "\n\n")
-}
-
 func main() {
-	local, remote := net.Pipe()
-	gate := make(chan struct{})
-	armed := make(chan struct{}, 1)
-	nread := 0
-	cfg := &peer.Config{
-		ChainParams: &chaincfg.SimNetParams,
-		Listeners: peer.MessageListeners{
-			OnRead: func(p *peer.Peer, n int, msg wire.Message, err error) {
-				nread++
-				if _, ok := msg.(*wire.MsgPing); ok {
-					armed <- struct{}{}
-					<-gate
-				}
-			},
-		},
+	if len(os.Args) == 4 && os.Args[1] == "--drive" {
+		os.Exit(peer.DriveMain(os.Args[2], os.Args[3]))
 	}
-	p := peer.NewInboundPeer(cfg)
-	p.AssociateConnection(&wconn{local, &net.TCPAddr{IP: net.ParseIP("10.0.0.1"), Port: 8333}})
-	// remote: reader
-	go func() {
-		for {
-			m, _, err := wire.ReadMessage(remote, wire.ProtocolVersion, wire.SimNet)
-			if err != nil {
-				fmt.Println("remote read err", err)
-				return
-			}
-			fmt.Println("remote got", m.Command())
-		}
-	}()
-	me := wire.NewNetAddressIPPort(net.ParseIP("10.0.0.1"), 8333, 0)
-	you := wire.NewNetAddressIPPort(net.ParseIP("10.0.0.2"), 8333, 0)
-	v := wire.NewMsgVersion(me, you, 12345, 0)
-	v.ProtocolVersion = int32(wire.ProtocolVersion)
-	wire.WriteMessage(remote, v, wire.ProtocolVersion, wire.SimNet)
-	wire.WriteMessage(remote, wire.NewMsgVerAck(), wire.ProtocolVersion, wire.SimNet)
-	time.Sleep(100 * time.Millisecond)
-	go wire.WriteMessage(remote, wire.NewMsgPing(7), wire.ProtocolVersion, wire.SimNet)
-	<-armed
-	p.Disconnect()
-	p.WaitForDisconnect()
-	time.Sleep(300 * time.Millisecond)
-	fmt.Println("--- before release:\n" + peerGoroutines())
-	close(gate)
-	time.Sleep(2 * time.Second)
-	fmt.Println("--- after release (2s):\n" + peerGoroutines())
-	os.Exit(0)
+	if len(os.Args) == 3 && os.Args[1] == "--tla" {
+		os.Exit(peer.TLAMain(os.Args[2]))
+	}
+	vrun.Main(map[string]vrun.Check{
+		"C18": {Level: "model_checking", Run: peer.RunC18},
+	})
 }
